@@ -76,6 +76,13 @@ def linksShorthand (L : Libs Time Url) (o : List (Str × JVal)) (key : Str) : R 
     | some ls => .ok ls
     | none => .error .wrong
 
+/-- `Link.Alt()`: the name; only when the name is absent, the URL (or the URL's error). -/
+def alt (l : T) : R Str :=
+  match l.alt with
+  | .ok a => .ok a
+  | .error .absent => l.uri
+  | .error e => .error e
+
 /-- `Link.rating`: `height * width` in `uint64` arithmetic, absent dimensions counting as 1. -/
 def rating (l : T) : R Nat :=
   let dim (d : R Nat) : R Nat := match d with
